@@ -147,8 +147,11 @@ func (c *channels) monitorTopic(ctx context.Context, sub coreiface.PubSubSubscri
 		}
 
 		// Make sure the message is coming from the correct peer
-		// Filter out all messages that didn't come from the second peer
-		if msg.From().String() == c.selfID.String() {
+		// Filter out all messages that didn't come from the second peer: our
+		// own, and those of anybody else who publishes on this topic (its name
+		// is derived from two public peer ids), which would otherwise be
+		// handed on as coming from p
+		if msg.From() != p {
 			continue
 		}
 
